@@ -5,7 +5,9 @@ package main
 // Groups (see checks/props/C17.json):
 //   wl        real patches (plain = pwr diff, optimized = rediff with bsdiff series) and crafted
 //             message lists, each applied under many whitelists through a RECORDING bowl and a
-//             RECORDING old-build pool; also evaluated by the model (Patch/Patcher.v)
+//             RECORDING old-build pool; also evaluated by the model (Patch/Patcher.v). A whitelist
+//             is a map[int64]bool: each selected set is passed in one of its spellings (absent vs
+//             explicitly-false indices, keys outside the build) - see spellings()
 //   reinterp  a message marshalled as type T and unmarshalled as each of the four types vs the
 //             schema-derived table of Patch/Reinterp.v
 
@@ -47,7 +49,9 @@ func runC17(c *Ctx) error {
 // ---------------------------------------------------------------- one patch under many whitelists
 
 type wlRun struct {
-	wl      []int64 // nil = no whitelist
+	wl      []int64 // keys mapped to true = the selected set (what the model receives); nil = no whitelist
+	neg     []int64 // keys present in the map but mapped to false (not selected, like absent keys)
+	rep     string  // how the set is spelled as a map (see wlSpec)
 	hasWl   bool
 	cls     string
 	msg     string
@@ -84,6 +88,41 @@ func readOutFiles(outDir string, src *tlc.Container) [][]byte {
 	return out
 }
 
+// wlSpec is one whitelist as the patcher receives it: SetSourceIndexWhitelist takes a
+// map[int64]bool, so one selected SET has many spellings - an index that is not selected may be
+// absent or present and mapped to false, and the map may carry keys that are no file index of the
+// new build at all. sel = keys mapped to true, neg = keys mapped to false.
+type wlSpec struct {
+	sel, neg []int64
+	rep      string // sparse | dense | mixed, "+foreign" when keys outside [0,n) are present
+}
+
+func (w wlSpec) mapOf() map[int64]bool {
+	m := map[int64]bool{}
+	for _, i := range w.neg {
+		m[i] = false
+	}
+	for _, i := range w.sel {
+		m[i] = true
+	}
+	return m
+}
+
+// String spells the map out, keys ascending: {0:true 1:false 2:true}
+func (w wlSpec) String() string {
+	m := w.mapOf()
+	keys := make([]int64, 0, len(m))
+	for k := range m {
+		keys = append(keys, k)
+	}
+	sort.Slice(keys, func(a, b int) bool { return keys[a] < keys[b] })
+	parts := make([]string, len(keys))
+	for i, k := range keys {
+		parts[i] = fmt.Sprintf("%d:%v", k, m[k])
+	}
+	return "{" + strings.Join(parts, " ") + "}"
+}
+
 type wlPatch struct {
 	name    string
 	class   string
@@ -95,7 +134,7 @@ type wlPatch struct {
 	msgs    []lib.PMsg        // the per-file messages (for the model)
 	oldC    *tlc.Container
 	newC    *tlc.Container
-	wls     [][]int64 // whitelists to try (a nil entry = no whitelist)
+	wls     []wlSpec // whitelists to try
 	members map[string]bool
 	// claims: false for crafted ill-formed patches (model comparison only)
 	claims bool
@@ -107,15 +146,12 @@ func runWhitelists(c *Ctx, p *wlPatch) error {
 	outDir := filepath.Join(c.Tmp, p.name+"-out")
 	defer removeAll(outDir)
 	var runs []wlRun
-	run := func(wl []int64, has bool) wlRun {
+	run := func(w wlSpec, has bool) wlRun {
 		var m map[int64]bool
 		if has {
-			m = map[int64]bool{}
-			for _, i := range wl {
-				m[i] = true
-			}
+			m = w.mapOf()
 		}
-		r := wlRun{wl: wl, hasWl: has}
+		r := wlRun{wl: w.sel, neg: w.neg, rep: w.rep, hasWl: has}
 		var rec *lib.Recorder
 		r.cls, r.msg = lib.Guard(func() error {
 			var err error
@@ -130,10 +166,12 @@ func runWhitelists(c *Ctx, p *wlPatch) error {
 		}
 		return r
 	}
-	full := run(nil, false)
+	full := run(wlSpec{}, false)
 	runs = append(runs, full)
-	for _, wl := range p.wls {
-		runs = append(runs, run(wl, true))
+	wlMaps := make([]string, len(p.wls))
+	for i, w := range p.wls {
+		runs = append(runs, run(w, true))
+		wlMaps[i] = w.String()
 	}
 	oracle, finding := "", ""
 	if p.claims {
@@ -197,10 +235,11 @@ func runWhitelists(c *Ctx, p *wlPatch) error {
 			for k, e := range r.events {
 				es[k] = e.String()
 			}
-			obsRuns = append(obsRuns, map[string]interface{}{"whitelist": wlString(r), "class": r.cls, "touched": r.touched, "trace": strings.Join(es, " ")})
+			obsRuns = append(obsRuns, map[string]interface{}{"whitelist": wlString(r), "spelling": r.rep, "class": r.cls, "touched": r.touched, "trace": strings.Join(es, " ")})
 		}
 	}
 	p.input["whitelists"] = len(p.wls)
+	p.input["whitelistMaps"] = wlMaps
 	// The model keeps a file as a flat list, so every write costs its whole length: a series of
 	// thousands of tiny bsdiff controls (bsdiff does that on long runs) would take minutes in
 	// Coq. Such a patch is judged by the oracle only.
@@ -228,7 +267,7 @@ func wlString(r wlRun) string {
 	if !r.hasWl {
 		return "none"
 	}
-	return fmt.Sprint(r.wl)
+	return wlSpec{sel: r.wl, neg: r.neg}.String()
 }
 
 // checkWlRun restates C17 on one run. need may be nil (no independent decoding available).
@@ -357,6 +396,96 @@ func subsets(r *lib.Rng, n int, all bool, sample int) [][]int64 {
 	return out
 }
 
+// spellings turns selected sets into the maps handed to SetSourceIndexWhitelist. The same set is
+// spelled sparse (only the selected indices, all true), dense (every other index of the build
+// present and mapped to false) or mixed (some of them), and now and then the map also carries
+// keys that are no file index of the build (n, n+1, -1, -(i+1), 2^31+i, 2^32+i - the last two are
+// what an index would alias to if it were narrowed), mapped to true or to false: none of this
+// changes the selected set. Always present: the empty map, "everything explicitly false" right
+// after it, and the first proper non-empty subset spelled dense.
+func spellings(r *lib.Rng, n int, sets [][]int64) []wlSpec {
+	others := func(sel []int64) []int64 {
+		in := map[int64]bool{}
+		for _, i := range sel {
+			in[i] = true
+		}
+		var o []int64
+		for i := int64(0); i < int64(n); i++ {
+			if !in[i] {
+				o = append(o, i)
+			}
+		}
+		return o
+	}
+	foreign := func(w *wlSpec) {
+		k := r.Range(1, 2)
+		seen := map[int64]bool{}
+		for j := 0; j < k; j++ {
+			i := int64(r.Intn(n + 1))
+			var key int64
+			switch r.Intn(6) {
+			case 0:
+				key = int64(n)
+			case 1:
+				key = int64(n) + 1 + i
+			case 2:
+				key = -1
+			case 3:
+				key = -(i + 1)
+			case 4:
+				key = 1<<31 + i
+			default:
+				key = 1<<32 + i
+			}
+			if seen[key] {
+				continue
+			}
+			seen[key] = true
+			if r.Bool() {
+				w.sel = append(w.sel, key)
+			} else {
+				w.neg = append(w.neg, key)
+			}
+		}
+		w.rep += "+foreign"
+	}
+	var out []wlSpec
+	denseDone := false
+	for _, sel := range sets {
+		rest := others(sel)
+		w := wlSpec{sel: append([]int64{}, sel...), rep: "sparse"}
+		mode := r.Intn(3)
+		if len(sel) == 0 {
+			mode = 0 // the empty map itself; its dense twin follows
+		} else if len(rest) > 0 && !denseDone {
+			mode, denseDone = 1, true
+		}
+		if len(rest) > 0 {
+			switch mode {
+			case 1:
+				w.neg, w.rep = rest, "dense"
+			case 2:
+				for _, i := range rest {
+					if r.Bool() {
+						w.neg = append(w.neg, i)
+					}
+				}
+				if len(w.neg) > 0 {
+					w.rep = "mixed"
+				}
+			}
+		}
+		if len(sel) > 0 && r.Chance(1, 4) {
+			foreign(&w)
+		}
+		out = append(out, w)
+		if len(sel) == 0 && n > 0 {
+			out = append(out, wlSpec{sel: []int64{}, neg: rest, rep: "dense"})
+		}
+	}
+	return out
+}
+
 // ---------------------------------------------------------------- real patches
 
 // optimize runs rediff but refuses the inputs that crash bsdiff on the unchanged tree (known
@@ -440,7 +569,7 @@ func c17RealPair(c *Ctx, name string, cr *lib.Rng, old, nw *lib.Build, classes [
 	input["bsdiffSeries"] = nb
 	input["msgs"] = lib.MsgSummary(dp.Msgs)
 	p := &wlPatch{name: name, class: fmt.Sprintf("%s%s/%s", classPrefix, kind, compOf(dp)), oldDir: oldDir, old: old, nw: nw, patch: patch, dp: dp, msgs: dp.Msgs,
-		oldC: dp.Target, newC: dp.Source, wls: subsets(cr, len(dp.Source.Files), all, sample), claims: true, input: input}
+		oldC: dp.Target, newC: dp.Source, wls: spellings(cr, len(dp.Source.Files), subsets(cr, len(dp.Source.Files), all, sample)), claims: true, input: input}
 	return runWhitelists(c, p)
 }
 
@@ -534,7 +663,7 @@ func c17Crafted(c *Ctx) error {
 			dp, _ = lib.DecodePatch(patch)
 		}
 		p := &wlPatch{name: name, class: "craft/" + cf.class, oldDir: oldDir, old: cf.old, patch: patch, dp: dp, msgs: cf.msgs, oldC: oldC, newC: newC,
-			wls: subsets(cr, len(newC.Files), c.Thorough(), 5), claims: wellFormed && dp != nil,
+			wls: spellings(cr, len(newC.Files), subsets(cr, len(newC.Files), c.Thorough(), 5)), claims: wellFormed && dp != nil,
 			input: map[string]interface{}{"old": cf.old.Summary(), "newFiles": fmt.Sprint(cf.files), "msgs": lib.MsgSummary(cf.msgs), "compression": comp.String()}}
 		err = runWhitelists(c, p)
 		removeAll(base)
